@@ -21,6 +21,8 @@ pub fn c17(tier: &str) -> i32 {
         WOp::Append(Size::ExactFit),
         WOp::Append(Size::OneTooMany),
         WOp::Append(Size::BlockMax),
+        WOp::Append(Size::BlockMaxRedoOnly),
+        WOp::Append(Size::BlockMaxUndoOnly),
         WOp::Append(Size::TooLarge),
         WOp::Force,
         WOp::Reopen,
